@@ -26,6 +26,7 @@ func init() {
 		Level: "exploration",
 		Rule: "one case = one kafka.ConsumerGroup used directly: an application loop calling Next and starting 1-4 functions per generation (returning at once / on cancellation / late after cancellation / after k ms), against the fake coordinator with a seeded script (error codes and dropped connections on find-coordinator/join/sync/offset-fetch/heartbeat/leave, forced rebalances, topic growth under a partition watcher, Close at a random point); " +
 			"oracle: (a) when Next returns, every function started in the previous generation by a Start call that had returned before that Next call has ended, (b) after the first end cause every function's context is done before this member's next JoinGroup/LeaveGroup, (c) heartbeat rate bounds while a generation lives and none for a generation after the member re-joined, (d) Close => LeaveGroup(current member) before Close returns and Next => ErrGroupClosed, (e) after a failed join the next JoinGroup comes no earlier than JoinGroupBackoff; " +
+			"watch list: WatchPartitionChanges with polls of the watcher answered with error codes or dropped, then the topic grows while a generation's function waits for cancellation: (A) at most two metadata answers carrying the new count may be delivered before the function sees its cancellation, (B) the cancellation must come within 2 s (several hundred poll intervals; confirmed on an idle re-run). " +
 			"signature = (function kinds, end causes seen, fault kinds, generations bucket); non-trivial = at least two generations or a fault fired",
 		Assumptions: []string{
 			"heartbeat timing is judged by rate bounds (count vs lifetime/interval with factors 3 and 50) and the back-off by a lower bound measured at the broker, which load can only lengthen",
